@@ -11,6 +11,7 @@ import (
 
 	"pgregory.net/rapid"
 
+	jschema "github.com/jsightapi/jsight-schema-go-library"
 	libjson "github.com/jsightapi/jsight-schema-go-library/formats/json"
 
 	"verif/gen"
@@ -26,10 +27,13 @@ type Case struct {
 	Input string `json:"input"` // bytes as a Go string (JSON-escaped in the replay file)
 	Hex   string `json:"hex,omitempty"`
 	Allow bool   `json:"allow_trailing"`
+	// Before: calls made on the same Document object before the judged Check ("check", "len",
+	// "next:<k>" = k NextLexeme calls, stopping at the first error)
+	Before []string `json:"before,omitempty"`
 }
 
-func mk(in []byte, allow bool) Case {
-	c := Case{Input: string(in), Allow: allow}
+func mk(in []byte, allow bool, before ...string) Case {
+	c := Case{Input: string(in), Allow: allow, Before: before}
 	if !utf8.Valid(in) {
 		c.Hex = fmt.Sprintf("%x", in)
 		c.Input = ""
@@ -52,31 +56,50 @@ func init() {
 		if err := stdjson.Unmarshal(raw, &c); err != nil {
 			t.Fatalf("bad case: %v", err)
 		}
-		check(t, c.bytes(), c.Allow)
+		check(t, c.bytes(), c.Allow, c.Before...)
 	})
 }
 
 // libCheck runs Document.Check and converts a panic into an error string.
-func libCheck(in []byte, allow bool) (err error, panicked any) {
+func libCheck(in []byte, allow bool, before ...string) (err error, panicked any) {
 	defer func() {
 		if r := recover(); r != nil {
 			panicked = r
 		}
 	}()
-	var d interface{ Check() error }
+	var d jschema.Document
 	if allow {
 		d = libjson.New("doc", in, libjson.AllowTrailingNonSpaceCharacters())
 	} else {
 		d = libjson.New("doc", in)
 	}
+	for _, op := range before {
+		func() {
+			defer func() { _ = recover() }() // the earlier calls are judged elsewhere (C06, C07, C14)
+			switch {
+			case op == "check":
+				_ = d.Check()
+			case op == "len":
+				_, _ = d.Len()
+			case strings.HasPrefix(op, "next:"):
+				k := 0
+				fmt.Sscanf(op, "next:%d", &k)
+				for i := 0; i < k; i++ {
+					if _, err := d.NextLexeme(); err != nil {
+						break
+					}
+				}
+			}
+		}()
+	}
 	return d.Check(), nil
 }
 
 // check is the oracle: library verdict == reference verdict.
-func check(t run.TB, in []byte, allow bool) (libAccepts bool) {
-	err, p := libCheck(in, allow)
+func check(t run.TB, in []byte, allow bool, before ...string) (libAccepts bool) {
+	err, p := libCheck(in, allow, before...)
 	if p != nil {
-		run.Fail(t, chk, mk(in, allow), "Document.Check panicked: %v", p)
+		run.Fail(t, chk, mk(in, allow, before...), "Document.Check panicked: %v", p)
 	}
 	libAccepts = err == nil
 	v, serr := ref.Parse(in)
@@ -104,7 +127,11 @@ func check(t run.TB, in []byte, allow bool) (libAccepts bool) {
 		if !allow && !want && libAccepts && truncatedNumberAtEOF(in) && run.MatchKnown("C05-truncated-number-at-eof") {
 			return
 		}
-		run.Fail(t, chk, mk(in, allow), "library accepts=%v (err=%v), RFC 8259 reference accepts=%v", libAccepts, err, want)
+		after := ""
+		if len(before) > 0 {
+			after = fmt.Sprintf(" [Check called after %v on the same Document]", before)
+		}
+		run.Fail(t, chk, mk(in, allow, before...), "library accepts=%v (err=%v), RFC 8259 reference accepts=%v%s", libAccepts, err, want, after)
 	}
 	return
 }
@@ -253,10 +280,31 @@ func TestGrammarMutation(t *testing.T) {
 		run.Eval(chk, true, string(text), fmt.Sprint(allow))
 		run.Label("valid-text")
 		run.Sample(chk, mk(text, allow))
+		// the verdict of Check does not depend on what the Document object was used for before
+		history := func(in []byte) {
+			var before []string
+			for i, n := 0, rapid.IntRange(1, 3).Draw(t, "nbefore"); i < n; i++ {
+				switch rapid.IntRange(0, 4).Draw(t, "before") {
+				case 0:
+					before = append(before, "check")
+				case 1:
+					before = append(before, "len")
+				case 2:
+					before = append(before, "next:100000") // to the end (or the first error)
+				default:
+					before = append(before, fmt.Sprintf("next:%d", rapid.IntRange(1, 12).Draw(t, "nextK")))
+				}
+			}
+			check(t, in, allow, before...)
+			run.Eval(chk, false)
+			run.Label("check-after-other-calls")
+		}
+		history(text)
 		nmut := rapid.IntRange(1, 4).Draw(t, "nmut")
 		for k := 0; k < nmut; k++ {
 			m := mutate(t, text)
 			acc := check(t, m, allow)
+			history(m)
 			run.Eval(chk, nontrivial(m, acc), string(m), fmt.Sprint(allow))
 			if acc {
 				run.Label("mutant-accepted")
